@@ -52,7 +52,9 @@ func c10KindsOf(op string) []string {
 	switch op {
 	case "GetResponseSigningKey", "GetMetadataSigningKey":
 		return c10KeyKinds
-	case "GetEntityByID", "GetEntityIDByAppID", "AuthRequestByID":
+	case "AuthRequestByID":
+		return []string{"error", "timeout", "canceled", "notfound", "errval", "typednil"}
+	case "GetEntityByID", "GetEntityIDByAppID":
 		return []string{"error", "timeout", "canceled", "notfound", "errval"}
 	case "SetUserinfoWithUserID", "SetUserinfoWithLoginName":
 		return []string{"error", "timeout", "canceled", "partial"}
